@@ -17,12 +17,16 @@ class PyGrammar:
         f = s.funcs[name]; ret = [x for x in f.body if isinstance(x, ast.Return)]
         if len(ret) != 1: raise AnalysisError("grammar function %s: expected one return" % name)
         s.rules[name] = None
-        s.rules[name] = s.expr(ret[0].value)
+        saved = getattr(s, "_locals", {})
+        s._locals = {st.targets[0].id: st.value for st in f.body if isinstance(st, ast.Assign) and len(st.targets) == 1 and isinstance(st.targets[0], ast.Name)}
+        try: s.rules[name] = s.expr(ret[0].value)
+        finally: s._locals = saved
         return s.rules[name]
     def expr(s, e):
         if isinstance(e, ast.Tuple): return ("seq", [s.expr(x) for x in e.elts])
         if isinstance(e, ast.List): return ("alt", [s.expr(x) for x in e.elts])
         if isinstance(e, ast.Constant) and isinstance(e.value, str): return ("lit", e.value)
+        if isinstance(e, ast.Name) and e.id in getattr(s, "_locals", {}): return s.expr(s._locals[e.id])      # local alias inside a grammar function
         if isinstance(e, ast.Name):
             if e.id == "EOF": return ("eof",)
             if e.id not in s.funcs: raise AnalysisError("unknown grammar symbol " + e.id)
